@@ -3,6 +3,7 @@
 package funcs
 
 import (
+	"github.com/shopspring/decimal"
 	dtpb "github.com/google/fhir/go/proto/google/fhir/proto/r4/core/datatypes_go_proto"
 	"github.com/verily-src/fhirpath-go/fhirpath/system"
 	"github.com/verily-src/fhirpath-go/internal/verifrt"
@@ -214,6 +215,15 @@ func verifConversion(target string) {
 		verifrt.Assert(len(res) == 1, "conversion-table-says-convertible")
 	case 0:
 		verifrt.Assert(len(res) == 0, "conversion-table-says-not-convertible")
+	}
+	if d, isDec := x.(system.Decimal); isDec && target == "Boolean" {
+		// the conversion table, Decimal to Boolean: 1.0 is true, 0.0 is false (whatever the scale), nothing else converts
+		one, zero := decimal.Decimal(d).Equal(decimal.NewFromInt(1)), decimal.Decimal(d).Equal(decimal.Zero)
+		ok := len(res) == 0
+		if one || zero {
+			ok = len(res) == 1 && res[0] == system.Boolean(one)
+		}
+		verifrt.Assert(ok, "decimal-converts-to-boolean-exactly-for-one-and-zero")
 	}
 	if len(res) == 1 {
 		again, err2 := to.Func(verifCtx(), res)
